@@ -361,6 +361,9 @@ def func_scripts(d, prop):
             for pm in ([-1, 0] if op == "map" and pa < 0 else [-1]):
                 add([_mk("arr", n), {"op": op, "recv": [1], "form": ["own"], "panic_at": pa, "pass_mod": pm}], recv="own", pass_mod=pm)
             add([_mk("box", n), {"op": op, "recv": [1], "form": ["own"], "panic_at": pa}], recv="box")
+            if op == "map":
+                # a result element type without drop glue (a path chosen from the OUTPUT type must still release the source)
+                add([_mk("arr", n), {"op": "map_plain_out", "recv": [1], "form": ["own"], "panic_at": pa}], recv="own:plain-out")
         else:
             for f in refs:
                 add([_mk("arr", n), {"op": op, "recv": [1], "form": [f], "panic_at": pa}], recv=f)
@@ -382,7 +385,8 @@ def func_scripts(d, prop):
                         add([_mk("arr", n), {"op": "zipx", "recv": [1], "form": [tf], "side": side, "pform": pf, "panic_at": pa}], recv="mixed:%s:%s:%s" % (side, tf, pf))
                 if form[0] and form[1]:
                     # ... and a result type without drop glue as well
-                    add([_mk("arr", n), {"op": "zipx_plain_out", "recv": [1], "form": ["own"], "side": side, "panic_at": pa}], recv="mixed-plain-out:%s" % side)
+                    for pf in ("own", "ref", "mut"):
+                        add([_mk("arr", n), {"op": "zipx_plain_out", "recv": [1], "form": ["own"], "side": side, "pform": pf, "panic_at": pa}], recv="mixed-plain-out:%s:%s" % (side, pf))
     return out
 
 
